@@ -193,9 +193,15 @@ SPlan GenerateSPlan(uint64_t seed, int max_tasks, bool canary) {
         // large enough for every prediction scheme to engage.
         op.w = GenerateWorkload(ro.Fork("w2"), 1, 0);
         op.w.n = static_cast<int>(ro.Fork("n2").Range(60, 300));
+        // A quarter: above the 1000-face threshold below which the encoder
+        // never considers the valence coder.
+        if (ro.Fork("n2big").Chance(1, 4))
+          op.w.n = static_cast<int>(ro.Fork("n2b").Range(1000, 1400));
         op.w.method = ro.Chance(1, 2) ? 1 : -1;
         op.w.espeed = op.w.dspeed = static_cast<int>(ro.Fork("s2").Below(2));
         op.w.expert = 0;
+        op.w.eb_method = -1;
+        op.w.nofeat = ro.Fork("nf2").Chance(1, 2) ? 1 : 0;
       }
       ops.push_back(op);
     }
@@ -853,6 +859,20 @@ uint64_t RunSPlan(const SPlan &plan_in, const std::string &repo,
       fa.push(e);
     }
     j["findings"] = fa;
+    Json res = Json::Array();
+    for (const auto &tr : ep.results) {
+      Json ta = Json::Array();
+      for (const OpResult &r : tr) {
+        Json e = Json::Array();
+        e.push(r.ran);
+        e.push(r.ok);
+        e.push(r.code);
+        e.push(Hex64(r.h));
+        ta.push(e);
+      }
+      res.push(ta);
+    }
+    j["res"] = res;
     j["static"] = static_cast<unsigned long long>(ep.static_accesses);
     j["total"] = static_cast<unsigned long long>(ep.total_accesses);
     j["yields"] = static_cast<unsigned long long>(ep.yields);
@@ -1038,13 +1058,106 @@ uint64_t RunSPlan(const SPlan &plan_in, const std::string &repo,
     f.detail = fa.at(i).get("detail").Str();
     out->push_back(f);
   }
+  // ---- cold references: every task alone in its own fresh process ----
+  // The solo phase above ran in the process that had just executed the
+  // concurrent phase: state that a first caller leaves behind (a guarded
+  // function-local static initialised from its arguments, a lazily built table
+  // parameterised by the first input) is the same in both and cancels out.
+  // Here each task runs where nothing ran before it.
+  uint64_t cold_mix = 0;
+  if (j.has("res")) {
+    const Json &res = j.get("res");
+    for (size_t t = 0; t < p.tasks.size() && t < res.size(); ++t) {
+      bool has_canary = false;
+      for (const SOp &op : p.tasks[t]) has_canary |= op.kind >= 3;
+      if (has_canary || res.at(t).size() != p.tasks[t].size()) continue;
+      int fd3[2];
+      if (pipe(fd3) != 0) abort();
+      const double t3 = now_s();
+      pid_t pid3 = fork();
+      if (pid3 == 0) {
+        prctl(PR_SET_PDEATHSIG, SIGKILL);
+        close(fd3[0]);
+        std::string lines;
+        for (size_t k = 0; k < p.tasks[t].size(); ++k) {
+          if (p.tasks[t][k].kind == 0 && in[t][k].usable) {
+            in[t][k].geom = BuildGeometry(p.tasks[t][k].w);
+            if (!in[t][k].geom) in[t][k].usable = false;
+          }
+          OpResult r;
+          TsanTaskStart(static_cast<int>(t));
+          RunOp(p.tasks[t][k], in[t][k], &r);
+          lines += std::to_string(r.ran) + " " + std::to_string(r.ok) + " " +
+                   std::to_string(r.code) + " " + Hex64(r.h) + "\n";
+        }
+        lines += "done\n";
+        WriteAllFd(fd3[1], lines);
+        _exit(0);
+      }
+      close(fd3[1]);
+      std::string ctext;
+      bool timed_out = false;
+      for (;;) {
+        const double left = t3 + kStageLimit - now_s();
+        if (left <= 0) {
+          timed_out = true;
+          break;
+        }
+        pollfd pf;
+        pf.fd = fd3[0];
+        pf.events = POLLIN;
+        const int pr = poll(&pf, 1, static_cast<int>(left * 1000) + 1);
+        if (pr < 0 && errno == EINTR) continue;
+        if (pr <= 0) continue;
+        char buf[4096];
+        const ssize_t n = read(fd3[0], buf, sizeof(buf));
+        if (n < 0 && errno == EINTR) continue;
+        if (n <= 0) break;
+        ctext.append(buf, static_cast<size_t>(n));
+      }
+      if (timed_out) kill(pid3, SIGKILL);
+      close(fd3[0]);
+      int st3 = 0;
+      waitpid(pid3, &st3, 0);
+      if (timed_out || ctext.size() < 5 ||
+          ctext.compare(ctext.size() - 5, 5, "done\n") != 0)
+        continue;  // no reference: no verdict for this task
+      size_t pos = 0;
+      for (size_t k = 0; k < p.tasks[t].size(); ++k) {
+        const size_t e = ctext.find('\n', pos);
+        if (e == std::string::npos) break;
+        const std::string line = ctext.substr(pos, e - pos);
+        pos = e + 1;
+        int ran = 0, okv = 0, code = 0;
+        char hx[40] = {0};
+        if (sscanf(line.c_str(), "%d %d %d %39s", &ran, &okv, &code, hx) != 4) break;
+        const Json &cr = res.at(t).at(k);
+        const bool same = cr.at(0).Int() == ran && cr.at(1).Int() == okv &&
+                          cr.at(2).Int() == code && cr.at(3).Str() == hx;
+        cold_mix = mix64(cold_mix, strtoull(hx, nullptr, 16) + static_cast<uint64_t>(okv));
+        if (same) continue;
+        static const char *n[] = {"enc", "dec", "dec_corpus", "canary_race", "canary_guard"};
+        SFinding f;
+        f.cls = "cross_talk";
+        f.sig = std::string("cross_talk_cold_reference|") + n[p.tasks[t][k].kind];
+        f.detail = "task " + std::to_string(t) + " op " + std::to_string(k) +
+                   ": concurrent result " + std::to_string(cr.at(1).Int()) + "/" +
+                   cr.at(3).Str() + " differs from the result of the same call alone in "
+                   "a fresh process " + std::to_string(okv) + "/" + hx +
+                   " (state left behind by an earlier call of another task)";
+        bool dup = false;
+        for (const SFinding &g : *out) dup |= g.sig == f.sig;
+        if (!dup) out->push_back(f);
+      }
+    }
+  }
   if (ep_out) *ep_out = ep;
   if (effective) {
     *effective = p;
     effective->strategy = "replay";
     effective->schedule = ep.trace;
   }
-  return strtoull(j.get("hash").Str().c_str(), nullptr, 16);
+  return mix64(strtoull(j.get("hash").Str().c_str(), nullptr, 16), cold_mix);
 }
 
 Json SFindingsToJson(const std::vector<SFinding> &fs, const SPlan &replayable,
